@@ -7,8 +7,11 @@ import (
 	"fmt"
 	"os"
 	"path/filepath"
+	"runtime"
 	"sort"
+	"strconv"
 	"strings"
+	"sync/atomic"
 )
 
 // SplitMix64: every random choice of a run derives from one state seeded by VERIF_SEED.
@@ -39,21 +42,23 @@ type Failure struct {
 }
 
 type Ctx struct {
-	Prop, Tier string
-	Seed       uint64
-	R          *Rng
-	ops, impl  *bufio.Writer
+	Prop, Tier  string
+	Seed        uint64
+	R           *Rng
+	ops, impl   *bufio.Writer
 	opsF, implF *os.File
-	NOps       int64
-	Evals      int64
-	Nontrivial int64
-	distinct   map[string]struct{}
-	Dist       map[string]int64
-	Fails      []Failure
-	FailCounts map[string]int64
-	Samples    []string
-	Notes      []string
-	Thorough   bool
+	NOps        int64
+	Evals       int64
+	Nontrivial  int64
+	distinct    map[string]struct{}
+	Dist        map[string]int64
+	Fails       []Failure
+	FailCounts  map[string]int64
+	Samples     []string
+	Notes       []string
+	Thorough    bool
+	failTotal   int64
+	mainG       int64 // goroutine running the property function (set by main.go)
 }
 
 // keyOwners: the operation lines are shared by several properties and carry embedded checks (typed error, zero result,
@@ -171,6 +176,38 @@ func (c *Ctx) Fail(key, input, format string, a ...any) {
 	if c.FailCounts[key] <= 5 {
 		c.Fails = append(c.Fails, Failure{Key: key, Input: input, Detail: fmt.Sprintf(format, a...)})
 	}
+	// A property that fails on hundreds of thousands of inputs is decided: stop generating (a run with the thorough
+	// generators on a badly broken tree would otherwise spend most of an hour formatting failure lines). Only the
+	// goroutine running the property function unwinds; main.go recovers the sentinel and finishes normally.
+	c.failTotal++
+	if c.failTotal > stopEarlyAfter {
+		atomic.StoreInt32(&stopFlag, 1) // parallel sweeps poll this and wind down
+		if c.mainG != 0 && goid() == c.mainG {
+			panic(stopEarly{})
+		}
+	}
+}
+
+const stopEarlyAfter = 200000
+
+// stopFlag: set once the property is decided by sheer number of failures; worker goroutines of parallel sweeps skip
+// the rest of their work when they see it
+var stopFlag int32
+
+func stopped() bool { return atomic.LoadInt32(&stopFlag) != 0 }
+
+type stopEarly struct{}
+
+// goid: the current goroutine's number, read from the first line of its stack ("goroutine 17 [running]:")
+func goid() int64 {
+	var buf [64]byte
+	n := runtime.Stack(buf[:], false)
+	f := strings.Fields(string(buf[:n]))
+	if len(f) < 2 {
+		return 0
+	}
+	id, _ := strconv.ParseInt(f[1], 10, 64)
+	return id
 }
 
 func (c *Ctx) Note(format string, a ...any) { c.Notes = append(c.Notes, fmt.Sprintf(format, a...)) }
